@@ -59,7 +59,7 @@ var (
 )
 
 // built-ins whose first step rejects an undefined/null this value
-var thisUsingBuiltin = map[string]bool{"String.prototype.toUpperCase": true, "Array.prototype.concat": true}
+var thisUsingBuiltin = map[string]bool{"String.prototype.toUpperCase": true, "Array.prototype.concat": true, "[ 1, 2, 3, undefined, 4 ].concat": true}
 
 // callees that assign to properties of their this value
 var writesThis = map[string]bool{"Ctor": true, "o.Ctor": true, "CtorPrim": true}
